@@ -474,8 +474,18 @@ func (e *Engine) loopsOf(fn *ssa.Function) *loopInfo {
 							lp.modAllocs = append(lp.modAllocs, ra)
 						}
 					}
-					if !e.callIsHeapPure(cc, 0) {
-						lp.writesHeap = true
+					if b, isB := cc.Value.(*ssa.Builtin); isB && (b.Name() == "append" || b.Name() == "copy") && len(cc.Args) > 0 {
+						if st, ok := cc.Args[0].Type().Underlying().(*types.Slice); ok {
+							lp.heapClasses = append(lp.heapClasses, "E|"+typeKey(st.Elem()))
+						} else {
+							lp.writesHeap = true
+						}
+					} else if !e.callIsHeapPure(cc, 0) {
+						if cls, ok := e.calleeClasses(cc); ok {
+							lp.heapClasses = append(lp.heapClasses, cls...)
+						} else {
+							lp.writesHeap = true
+						}
 					}
 					// closures called in the loop may write captured cells
 					if mc, ok := cc.Value.(*ssa.MakeClosure); ok {
@@ -541,6 +551,29 @@ func rootAlloc(v ssa.Value) *ssa.Alloc {
 		}
 	}
 	return nil
+}
+
+// calleeClasses: heap class patterns a contracted callee may write (assigns class:...).
+func (e *Engine) calleeClasses(cc *ssa.CallCommon) ([]string, bool) {
+	f := cc.StaticCallee()
+	if f == nil {
+		return nil, false
+	}
+	fc := e.contractOf(f)
+	if fc == nil || !fc.HasAssign {
+		return nil, false
+	}
+	var out []string
+	for _, a := range fc.Assigns {
+		switch {
+		case a == "nothing" || a == "fresh":
+		case strings.HasPrefix(a, "class:"):
+			out = append(out, "~"+strings.TrimPrefix(a, "class:"))
+		default:
+			return nil, false
+		}
+	}
+	return out, true
 }
 
 // callIsHeapPure: conservative static answer to "can this call write the heap?"
@@ -609,3 +642,39 @@ func (e *Engine) fnIsHeapPure(f *ssa.Function, depth int) bool {
 }
 
 func atoi(s string) int { n, _ := strconv.Atoi(s); return n }
+
+// typeByName resolves "pkg.T" / "*pkg.T" / basic type names to a types.Type.
+func (e *Engine) typeByName(name string) types.Type {
+	ptr := strings.HasPrefix(name, "*")
+	base := strings.TrimPrefix(name, "*")
+	var t types.Type
+	if i := strings.Index(base, "."); i >= 0 {
+		pn, tn := base[:i], base[i+1:]
+		for _, tp := range e.tpkgs {
+			if tp.Name() == pn {
+				if obj := tp.Scope().Lookup(tn); obj != nil {
+					if _, ok := obj.(*types.TypeName); ok {
+						t = obj.Type()
+						if strings.HasPrefix(tp.Path(), repoModule) {
+							break
+						}
+					}
+				}
+			}
+		}
+	} else {
+		for _, b := range types.Typ {
+			if b.Name() == base {
+				t = b
+			}
+		}
+	}
+	if t == nil {
+		return nil
+	}
+	if ptr {
+		t = types.NewPointer(t)
+	}
+	e.typeID(t)
+	return t
+}
